@@ -43,6 +43,12 @@ def apply(msg, op, kinds):
     """returns expected message dump or None (= unchanged / error, message must stay as it is), or 'skip'"""
     msg = copy.deepcopy(msg)
     path = op['path']
+    if op['op'] == 'SetMany':
+        for m in op['many']:
+            nxt = apply(msg, dict(op='Set', path=path + [m['it']], sub=m['sub']), kinds)
+            if nxt == 'skip' or nxt is None: return 'skip'
+            msg = nxt
+        return msg
     if not path: return 'skip'
     st, node = lookup(msg, path)
     # split: parent message path + rest
@@ -110,7 +116,8 @@ for f in files:
     for ops in case.get('ops') or []:
         exp = apply(cur, ops, kinds)
         if exp == 'skip': break
-        steps.append(dict(op=ops['op'], path=[(i['k'], i['n'], bytes(i['b']).hex()) for i in ops['path']], sub=ops['sub'], exp=exp))
+        steps.append(dict(op=ops['op'], path=[(i['k'], i['n'], bytes(i['b']).hex()) for i in ops['path']], sub=ops['sub'], exp=exp,
+                     many=[dict(it=(m['it']['k'], m['it']['n'], bytes(m['it']['b']).hex()), sub=m['sub']) for m in (ops.get('many') or [])]))
         if exp is not None: cur = exp
     cases.append(dict(fp=fp, proto=c['proto'], hex=bytes(c['b']).hex(), ref=c['ref'], steps=steps))
 json.dump(cases, open(os.path.join(out, 'repro10_cases.json'), 'w'))
